@@ -59,6 +59,15 @@ CHECKS = {
             "last-element indices cannot reach a subscript for an empty container, computed loop steps are non-zero.",
             "Trusted: clang 14 front end; the triage tables in rules/c07.json. Declined: general out-of-bounds freedom, assertion unreachability, division by zero, termination of numeric iterations.",
             "DESIGN.md 2/C07"),
+    "C15": ("edge-dominance analysis of the obstacle filter, qualifier typing (geometry frame, axis, min/max argument roles), soundness check of obstacle skips, row provenance",
+            "Decides which cells count as obstacles (fixed AND obstruction, placed footprint, extras kept), that every row is reduced by every obstacle and only full-height segments with the row's orientation are emitted, "
+            "that geometry helpers never mix frames or axes, and that every algorithm builder consumes the obstruction-free rows.",
+            "Trusted: clang 14 front end; name-based axis seeds (min/max, X/Y, width/height). Declined: the set equality itself (semantics of boost::polygon's set difference).",
+            "DESIGN.md 2/C15"),
+    "C18": ("who-may-write + edge-dominance guard analysis; path counting in the per-cell loop",
+            "Frame clause only: expansion functions write nothing but cellWidth_ and only under the movable test on the same index; computeCellExpansion is pure, gives each cell one factor, 1 for fixed cells and a running maximum from 1 otherwise.",
+            "Trusted: clang 14 front end. Declined: all density / rounding arithmetic; completeness of a non-trivial region scan.",
+            "DESIGN.md 2/C18"),
 }
 
 NOT_APPLICABLE = {
